@@ -61,6 +61,11 @@ func c13Commands(sym string, i int) [][]string {
 		return [][]string{{"MULTI"}, {"SET", "user:marker:{x}" + p, markerLike}, {"SET", "tf" + p, "1"}, {"EXEC"}}
 	case "expire":
 		return [][]string{{"SET", "k" + p, "v" + p}, {"EXPIRE", "k" + p, "100"}}
+	case "otherdb":
+		// a client write in another database: the next thing this site propagates from db 0
+		// (e.g. a transaction a link wrote) is preceded - Redis >= 7: followed inside the
+		// MULTI - by a SELECT
+		return [][]string{{"SELECT", "1"}, {"SET", "kd" + p, "v" + p}, {"SELECT", "0"}}
 	}
 	panic("unknown c13 symbol " + sym)
 }
@@ -364,8 +369,8 @@ func runC13(t *testing.T, rep *mc.Reporter) {
 		rep.Exec(scn, rp.Choices, c13Exec(t, scn, mc.NewChooser(rp.Choices)))
 		return
 	}
-	full := []string{"set", "setex", "delmiss", "hset", "txn", "txn1", "markerval", "markerkey", "txnmarker", "txnmarkerfirst", "expire"}
-	reduced := []string{"set", "setex", "txn", "txn1", "txnmarkerfirst"}
+	full := []string{"set", "setex", "delmiss", "hset", "txn", "txn1", "markerval", "markerkey", "txnmarker", "txnmarkerfirst", "expire", "otherdb"}
+	reduced := []string{"set", "setex", "txn", "txn1", "txnmarkerfirst", "otherdb"}
 	modes := []biCfg{{"sync", 2}, {"pipeline", 2}, {"parallel", 2}}
 	bound := 1
 	type plan struct {
